@@ -91,3 +91,16 @@ CASES += [
         (H, "    def _ado_self_rhs(self, ado1, dt, slevel=0):",
          "    def _hamiltonian_matrix(self):\n        if self.hy.ham.has_rwa:\n            return self.hy.ham.data - self.HOmega\n        return self.hy.ham.data\n\n    def _ado_self_rhs(self, ado1, dt, slevel=0):", 1)]},
 ]
+
+CASES += [
+    m("hierarchy result not marked as rotating-frame (the repaired defect)", "C16-I",
+      "        rhot = DensityMatrixEvolution(timeaxis=self.timeaxis, rhoi=rhoi,\n                                      is_in_rwa=True)",
+      "        rhot = DensityMatrixEvolution(timeaxis=self.timeaxis, rhoi=rhoi)"),
+    m("initial state enters the frame with the conjugate phase", "C16-I",
+      "        Ut = numpy.diag(numpy.exp(1j*HOmega*t0))", "        Ut = numpy.diag(numpy.exp(-1j*HOmega*t0))"),
+    m("initial state used as submitted", "C16-I",
+      "        rhoi = self._initial_state_in_RWA(rhoi)\n", ""),
+    t("result marked by assignment", 
+      "        rhot = DensityMatrixEvolution(timeaxis=self.timeaxis, rhoi=rhoi,\n                                      is_in_rwa=True)",
+      "        rhot = DensityMatrixEvolution(timeaxis=self.timeaxis, rhoi=rhoi)\n        rhot.is_in_rwa = True"),
+]
